@@ -517,8 +517,9 @@ func (e *regEnv) oracleEnums(ctx *Ctx) {
 }
 
 // maskRoundTrip checks the three text forms of one mask value. Values made of REGISTERED flags only
-// (what is "written by name") are C17; the zero mask and unnamed bits (written as nothing / as hex)
-// are reported under C04 (same defects as seen by the XML/JSON engines).
+// (what is "written by name") are C17 in every form. For the zero mask and for unnamed bits (written as
+// nothing / as hex) the XML and JSON forms are the business of C04 (the defects the XML/JSON engines see),
+// while MarshalText/UnmarshalText of the mask types (bitmasks.go, anchored by C17 only) stays C17.
 func (e *regEnv) maskRoundTrip(ctx *Ctx, tag int, v uint32, nflags int) {
 	ty, ok := e.maskType[tag]
 	if !ok {
@@ -569,6 +570,9 @@ func (e *regEnv) maskRoundTrip(ctx *Ctx, tag int, v uint32, nflags int) {
 		})
 		if p != "" {
 			res = "panic " + p
+		}
+		if form.name == "text" {
+			prop = "C17"
 		}
 		if res != "" {
 			e.violate(ctx, prop, "mask-roundtrip", fmt.Sprintf("mask:%s:%s:%s", form.name, tn, class), fmt.Sprintf("%s %s value 0x%08X: %s", form.name, tn, v, res), line)
